@@ -16,6 +16,7 @@ from ..worlds import store
 ID = "C02"
 LEVEL = "exploration"
 CHUNK = 40
+CHUNK_DEADLINE = 600       # (long flavours: crowds, soaks, wide events; shared machines)
 BUDGET = {"quick": {"runs": 3000, "wall": 150}, "thorough": {"runs": 150000, "wall": 1200}}
 RULE = ("stores of 1-30 colliding events (prefix-related tag values, shared timestamps, kinds sharing "
         "bytes, delegations) then 6-16 queries: single well-formed filters of every shape (ids, kinds, "
